@@ -648,6 +648,9 @@ func Rand(fn parser.Function, args []value.Primary, _ *option.Flags) (value.Prim
 		return nil, NewFunctionInvalidArgumentError(fn, fn.Name, "the second argument must be greater than the first argument")
 	}
 	delta := high - low + 1
+	if delta < 1 {
+		return nil, NewFunctionInvalidArgumentError(fn, fn.Name, "the range of the arguments is too large")
+	}
 	return value.NewInteger(r.Int63n(delta) + low), nil
 }
 
